@@ -40,5 +40,10 @@ for out in sorted(glob.glob(os.path.join(VERIF, "seeded", "C*-*"))):
     }
     if "first_evaluation" in old:
         meta["first_evaluation"] = old["first_evaluation"]
+    if "pair" in old:
+        meta["pair"] = old["pair"]
+    elif int(n) >= 9:
+        meta["pair"] = {"twin": "refactors/%s-r%d" % (prop, int(n) + 8),
+                        "what": "the same sub-agent's behaviour-preserving twin of this change (same function, same lines)"}
     json.dump(meta, open(out + "/meta.json", "w"), indent=1, ensure_ascii=False)
     print(name, "target" if meta["checks"]["caught_by_target_property"] else ("other" if meta["checks"]["caught_by_any"] else "MISSED"), sorted(keys))
